@@ -314,7 +314,62 @@ def cases(tier: str, rng: random.Random):  # noqa: ANN201
         yield {"disposables": [[rng.choice(ENTERS), rng.choice(EXITS), rng.choice(ys)] for _ in range(n)], "body": rng.choice(BODIES)}
 
 
+INJECTED_PROGRAMS: list[list[list[str]]] = [
+    # [enter, exit] per disposable: resources that enter (and whose cleanup may suspend) next to one that fails to enter or is slow to enter
+    [["ok", "gate"], ["gate-raise", "ok"]], [["ok", "ok"], ["gate-raise", "ok"]], [["gate", "gate"], ["gate-raise", "ok"], ["ok", "ok"]], [["ok", "gate"], ["raise", "ok"]],
+    [["ok", "gate"], ["gate", "ok"]], [["gate", "ok"], ["gate", "gate"]], [["ok", "ok"], ["gate", "gate"], ["gate", "ok"]], [["ok", "gate"]], [["gate", "gate"]],
+]
+
+
+def injected(R: Recorder, tier: str) -> None:
+    """the task that owns the scope is cancelled at every one of its suspension points while entering / leaving the scope - at that very
+    moment, 1-3 loop idles later, a few loop iterations after either (while completions are on their way through the loop's ready
+    queue), optionally followed by a second cancellation a few iterations later: whatever was entered is exited exactly once"""
+    import itertools as it
+
+    from hv.props import c07
+
+    for pi, disp in enumerate(INJECTED_PROGRAMS):
+        uid = it.count(1)
+        blk = c07.make_block("blk", disp, [], [], uid)
+        blk["catch"] = True  # the surrounding code survives whatever comes out
+        prog = [blk]
+        base = c07.run_once(prog, [], "first", None)
+        choices = [c for c, _ in base["chooser"].trace]
+        if base["status"] != "ok":
+            R.monitor("terminates", False, where={"kind": "uninjected-run-failed", "injected": True}, detail=f"fault-free run ended {base['status']}: {base['value']!r}", case={"injected": pi})
+            continue
+        n = base["inj"].points
+        again_opts = (0, 1, 2, 3, 5) if tier == "quick" else (0, 1, 2, 3, 4, 5, 7)
+        for k, j, m, again in it.product(range(n), (0, 1, 2, 3), (0, 1, 2, 3, 4), again_opts):
+            out = c07.run_once(prog, choices, "first", k, after_idles=j, after_turns=m, again_after_turns=again)
+            inj = out["inj"]
+            if not inj.fired:
+                continue
+            W: World = out["W"]
+            rec = {"injected": pi, "disposables": disp, "choices": choices, "k": k, "after_idles": j, "after_turns": m, "again_after_turns": again}
+            R.case(rec, nontrivial=True)
+            R.count("cancellations_injected_around_scope_entry_and_exit")
+            if inj.fired_again:
+                R.count("second_cancellations_injected")
+            w0 = {"injected": True, "phase": inj.where or "?", "second_cancel": bool(inj.fired_again)}
+            if out["status"] != "ok":
+                R.monitor("terminates", False, where={**w0, "kind": out["status"]}, detail=f"run ended {out['status']}: {out['value']!r}; events={W.events}", case=rec)
+                continue
+            R.monitor("terminates", True)
+            for d in W.disposables.get("blk", []):
+                if d.enter_done:
+                    R.monitor("exit-once", d.exit_calls == 1, where={**w0, "kind": "entered-not-exited" if d.exit_calls == 0 else "exited-twice"},
+                              detail=f"disposable {d.idx} of {disp} was entered; the owner was cancelled at suspension point {k} (+{j} idles, +{m} loop iterations{', again +%d iterations later' % again if inj.fired_again else ''}); exit calls {d.exit_calls}; events={W.events}", case=rec)
+                elif d.enter_calls and d.enter_err is None:
+                    R.monitor("exit-once", None)  # its enter was interrupted
+                else:
+                    R.monitor("exit-once", d.exit_calls == 0, where={**w0, "kind": "exited-without-enter"}, detail=f"disposable {d.idx}: enter failed / never started, exit calls {d.exit_calls}; events={W.events}", case=rec)
+
+
 def run(R: Recorder, tier: str, seed: int, shard: int, nshards: int) -> None:
+    if shard == 0:
+        injected(R, tier)
     R.flags["exhaustive_core"] = f"full enter x exit product for <= {2 if tier == 'quick' else 3} disposables x body outcomes x all completion orders"
     rng_cases = random.Random(f"C08/{seed}")
     rng = random.Random(f"C08/{seed}/{shard}")
@@ -324,6 +379,9 @@ def run(R: Recorder, tier: str, seed: int, shard: int, nshards: int) -> None:
 
 
 def replay(R: Recorder, rec: dict[str, Any]) -> None:
+    if "injected" in rec:
+        injected(R, "quick")
+        return
     ch = Chooser(rec["choices"], "first")
     W, status, value, sched, out = run_once(rec["case"], ch)
     judge(R, rec["case"], ch, W, status, value, sched)
